@@ -105,6 +105,9 @@ LEAVES = [
     '1j', '-2.5j', '1+2j', "''", "'s'", '"it\'s"', '\'say "hi"\'', '\'both \\\' and "\'', "'a\\nb'", "'tab\\there'", "'back\\\\slash'", "'nul\\x00'", "'\\x1b[0m'",
     "'é'", "'\\U0001F600'", "'\\udc80'", "'%s %d'", "'{}'", "r'\\d+'", "'a' 'b'", "'''multi\nline'''", "b''", "b'bytes'", "b'\\xff\\x00'", "b'it\\'s'", 'b"\\n"',
     '...', 'True', 'False', 'None', 'NotImplemented', 'a', 'a.b', 'a.b.c', '__name__', 'é', '(1,)', '()', '[]', '{}', '{1}', 'set()', '[()]', '((),)', '1,', '1, 2',
+    # one str per Unicode general category that is not plain printable ASCII, the whole Latin-1 range at once, every byte value
+    "'\\u200b'", "'a\\u202eb'", "'\\ufeff'", "'\\xad'", "'\\u2028'", "'\\u2029'", "'\\xa0'", "'\\u3000'", "'e\\u0301'", "'\\ue000'", "'\\u0378'", "'\\u4e2d'", "'\\u2603'",
+    "'\\x7f\\x80\\x9f'", "'\\U000e0001'", "'\\U0010ffff'", repr(''.join(map(chr, range(256)))), repr(bytes(range(256))), "'\\u200b' + b'\\xe2\\x80\\x8b'.decode()",
     '-(1)', '- 1', '--1', '-(-1)', 'not not a', '~-1', '(-1)**2', '-1**2', '2**-1', '(1+2j).real', '1 .real', '1.5.real', "''.join", '[1][0]', '(1, 2)[0]', '{1: 2}[1]',
 ]
 
@@ -367,6 +370,59 @@ def judge_seam(src: str, res: Dict[str, Any]) -> None:
     res['nontrivial'].add(core.h('seam', canon))
 
 
+# ---------------------------------------------------------------- string operands in annotations (forward references inside operator expressions)
+
+class _Unstr(ast.NodeTransformer):
+    def visit_Subscript(self, node: ast.Subscript) -> Any:
+        value = self.visit(node.value)
+        lit = (isinstance(value, ast.Name) and value.id == 'Literal') or (isinstance(value, ast.Attribute) and value.attr == 'Literal')
+        return ast.Subscript(value=value, slice=node.slice if lit else self.visit(node.slice), ctx=node.ctx)
+
+    def visit_Constant(self, node: ast.Constant) -> Any:
+        if isinstance(node.value, str):
+            return self.visit(ast.parse(node.value, mode='eval').body)
+        return node
+
+
+ANN_INNER = ['a | b', 'a - b', 'a + b', 'a * b', '-a', 'a or b', 'a if b else c', 'a < b', 'a.b', 'a[b]', 'a ** b', 'not a', 'lambda: a', 'a, b']
+
+
+def judge_ann_strings(oi: int, res: Dict[str, Any]) -> None:
+    """annotation = outer operator applied to operands one of which is a STRING holding an inner operator expression; the shown annotation must
+    read back as the outer operator applied to the (grouped) inner expression - in a signature, as a variable type and as a return type"""
+    from pydoctor.templatewriter import pages
+    from pydoctor.stanutils import flatten_text
+    from pydoctor import epydoc2stan
+    o1 = OPS[oi]
+    rows = []
+    for pos in range(op_arity(o1)):
+        for inner in ANN_INNER:
+            args = ['X', 'Y', 'Z'][:op_arity(o1)]
+            args[pos] = repr(inner)
+            rows.append(op_apply(o1, args).replace('(' + repr(inner) + ')', repr(inner)))
+            sub = f'T[{inner!r}]'
+            args[pos] = sub
+            rows.append(op_apply(o1, args))
+    src = ''.join(f'def f{i}(p: {a}) -> {a}: pass\nv{i}: {a} = 0\n' for i, a in enumerate(rows))
+    s = pd.build_mem([pd.Mod('m', src)])
+    for i, a in enumerate(rows):
+        res['evals'] += 1
+        want = norm(ast.fix_missing_locations(_Unstr().visit(ast.parse(a, mode='eval').body)))
+        res['nontrivial'].add(core.h('annstr', a))
+        case = {'kind': 'annstr', 'op': oi, 'ann': a}
+        sig = flatten_text(pages.format_signature(s.allobjects[f'm.f{i}']))  # type: ignore
+        var = flatten_text(epydoc2stan.type2stan(s.allobjects[f'm.v{i}']) or '')  # type: ignore
+        for where, text in (('parameter', sig[sig.index(':') + 1:sig.rindex(') ->')] if ') ->' in sig else ''), ('return', sig[sig.rindex('->') + 2:] if '->' in sig else ''), ('variable', var)):
+            try:
+                back = norm(ast.parse(text.strip(), mode='eval').body)
+            except (SyntaxError, ValueError):
+                back = 'unparsable'
+            if back != want:
+                e = ast.parse(a, mode='eval').body
+                res['violations'].append(core.violation(f'annotation-string-operand/{where}/{tname(e)}/{"unparsable" if back == "unparsable" else "meaning"}',
+                                                        f'annotation {a} shown as {text!r} ({where})', case))
+
+
 # ---------------------------------------------------------------- jobs
 
 def jobs(tier: str) -> Iterable[Tuple[str, Any]]:
@@ -378,6 +434,8 @@ def jobs(tier: str) -> Iterable[Tuple[str, Any]]:
     for i in range(0, len(TRUNC_VALUES), 5):
         yield ('truncation', ('trunc', i, i + 5))
     yield ('seam', ('seam',))
+    for oi in range(len(OPS)):
+        yield ('annotation-string-operands', ('annstr', oi))
     if tier == 'thorough':
         for pi in range(len(FORMS)):
             for pos in range(FORMS[pi][1]):
@@ -421,6 +479,8 @@ def run_job(job: Any, tier: str) -> Dict[str, Any]:
                         a1 = ['g', 'h', 'i'][:op_arity(o1)]
                         a1[p1] = op_apply(o2, a2)
                         judge_expr(op_apply(o1, a1), res, 'chain')
+    elif k == 'annstr':
+        judge_ann_strings(job[1], res)
     elif k == 'leaves':
         for src in LEAVES:
             judge_expr(src, res, 'leaf')
@@ -443,6 +503,9 @@ def replay(case: Dict[str, Any]) -> List[Dict[str, Any]]:
         judge_expr(case['src'], res, 'replay')
     elif case['kind'] == 'block':
         judge_block(case['src'], case['linelen'], case['maxlines'], res)
+    elif case['kind'] == 'annstr':
+        judge_ann_strings(case['op'], res)
+        res['violations'] = [v for v in res['violations'] if v['case']['ann'] == case['ann']]
     else:
         judge_seam(case['src'], res)
     return res['violations']
